@@ -154,6 +154,12 @@ func (ex *Exec) havocAll(st *State) {
 			kept = append(kept, keep{name, ref, ex.p.Select(r, ref)})
 		}
 	}
+	for _, lf := range ex.localFieldRefs {
+		if s, ok := ex.regionSorts[lf.region]; ok {
+			r := ex.getRegion(st, lf.region, s)
+			kept = append(kept, keep{lf.region, lf.ref, ex.p.Select(r, lf.ref)})
+		}
+	}
 	defer func() {
 		for _, k := range kept {
 			r := ex.getRegion(st, k.name, ex.regionSorts[k.name])
